@@ -61,6 +61,33 @@ pub fn c19q_forwarders() {
 	assert!(h.max_depth == 1 && h.depth == 0 && h.calls == 1, "hooks not forwarded exactly once");
 }
 
+/// one step from an ARBITRARY counter (source hook): success adds exactly the length, saturating
+/// at u64::MAX instead of wrapping; failure adds nothing.
+#[kani::proof]
+#[kani::unwind(10)]
+pub fn c19q_step_any_counter() {
+	let bytes: [u8; 8] = kani::any();
+	let len: usize = kani::any();
+	kani::assume(len <= 8);
+	let start: u64 = kani::any();
+	let mut s = &bytes[..len];
+	let mut c = CountedInput::__verif_with_count(&mut s, start);
+	assert!(c.count() == start);
+	let n: usize = kani::any();
+	kani::assume(n <= 8);
+	let mut buf = [0u8; 8];
+	let r = c.read(&mut buf[..n]);
+	let mid = c.count();
+	assert!(r.is_ok() == (n <= len), "wrapper changed whether the read succeeds");
+	let exp = if r.is_ok() { match start.checked_add(n as u64) { Some(x) => x, None => u64::MAX } } else { start };
+	assert!(mid == exp, "read from an arbitrary counter: not +len on success (saturating) / unchanged on failure");
+	let r2 = c.read_byte();
+	let exp2 = if r2.is_ok() { if mid == u64::MAX { u64::MAX } else { mid + 1 } } else { mid };
+	assert!(c.count() == exp2, "read_byte from an arbitrary counter: not +1 on success (saturating) / unchanged on failure");
+	kani::cover!(r.is_ok() && start > u64::MAX - 4 && n > 4, "reach: saturation");
+	kani::cover!(r.is_err(), "reach: failed read");
+}
+
 /// negative twin: "count equals the input length" must FAIL
 #[kani::proof]
 #[kani::unwind(6)]
